@@ -1,13 +1,14 @@
 //! C05: identity hashes are taken over the kept wire bytes (dispatch level, L2 of DESIGN.md C05).
 //! fn: pallas_traverse::OriginalHash::original_hash for KeepRaw<byron::EbbHead>, KeepRaw<byron::BlockHead>, KeepRaw<byron::Tx>, KeepRaw<alonzo::Header>, KeepRaw<babbage::Header>, KeepRaw<alonzo::NativeScript>, KeepRaw<alonzo::PlutusData>, KeepRaw<alonzo::TransactionBody>, KeepRaw<babbage::TransactionBody>, KeepRaw<conway::TransactionBody>
-//! fn: pallas_traverse::ComputeHash::compute_hash for alonzo::PlutusScript<1|2|3>, babbage::DatumOption
-//! fn: pallas_traverse::MultiEraTx::hash (4 variants), MultiEraHeader::hash (4 variants), MultiEraBlock::hash (alonzo, babbage, conway, epoch boundary)
+//! fn: pallas_traverse::ComputeHash::compute_hash for alonzo::PlutusScript<1|2|3>, babbage::DatumOption::Hash
+//! fn: pallas_traverse::MultiEraTx::hash (4 variants), MultiEraHeader::hash (ShelleyCompatible, BabbageCompatible), MultiEraBlock::hash (alonzo, babbage, conway)
 //! fn: pallas_crypto::hash::Hasher::<224|256>::{hash,hash_tagged,hash_cbor} (real code, down to the Blake2b calls), KeepRaw::{raw_cbor,encode}
 //! stub: <cryptoxide::blake2b::Blake2b as Digest>::{input,result} -> recording model (xstubs::rec): digest = the bytes fed (zero padded) and their count; injective for <= 27 / 31 bytes, so equal digests <=> equal byte streams
 //! stub: minicbor::encode::Error::write -> Error::message (standard set)
 //! assume: raw non-empty for the two Byron header impls (they go through KeepRaw::encode, which re-encodes the inner value when raw is empty; a decoded KeepRaw never has empty raw since every CBOR item has >= 1 byte)
 //! outside: L1 (KeepRaw::decode stores exactly the consumed slice) is C03(c); decoding era bodies from symbolic bytes; real Blake2b (C10); raw longer than 24 bytes (the hashers are length-agnostic loops)
-//! outside: MultiEraBlock::hash for Byron main blocks (same header path as MultiEraHeader::Byron, block body not built)
+//! outside: MultiEraHeader::hash / MultiEraBlock::hash for the EpochBoundary and Byron variants (one-line dispatch to the two Byron OriginalHash impls, which are decided directly in c05_q_orig_{ebb,byron}_head; behind Cow / Box the dispatch gave no verdict in 700 s because KeepRaw::encode's `raw.is_empty()` test is then read back from the heap and the re-encoding of the whole header stays in the formula)
+//! outside: babbage::DatumOption::compute_hash on an *inline* datum: by reading it reaches PlutusData::compute_hash through two Derefs (CborWrap -> KeepRaw -> PlutusData) and hashes a re-encoding instead of the kept bytes; a harness for it gave no verdict in 700 s (PlutusData's recursive encoder)
 use crate::build::*;
 use crate::xstubs::rec;
 use pallas_codec::utils::{Bytes, CborWrap, KeepRaw, MaybeIndefArray, Nullable};
@@ -275,9 +276,6 @@ macro_rules! header {
 // bound: header raw = 0..=12 arbitrary bytes (>= 1 for Byron), inner = minimal built header; unwind 34
 header!(c05_q_header_shelley, ShelleyCompatible, 0, [], alonzo_header(kani::any()));
 header!(c05_q_header_babbage, BabbageCompatible, 0, [], babbage_header(kani::any()));
-// bound: header raw = exactly 12 arbitrary bytes (concrete length: KeepRaw::encode branches on raw.is_empty(); symbolic lengths are in c05_q_orig_{ebb,byron}_head), inner = minimal built header; unwind 34
-header!(c05_q_header_ebb, EpochBoundary, N, [0x82, 0x00], ebb_head(0));
-header!(c05_q_header_byron, Byron, N, [0x82, 0x01], byron_head(0));
 
 // ---- MultiEraBlock::hash (header() + hash())
 
@@ -342,25 +340,6 @@ fn c05_q_block_alonzo() {
 }
 }
 
-hash_stubs! {
-/// bound: header raw = exactly 12 arbitrary bytes (concrete length), block otherwise empty; unwind 34
-fn c05_q_block_ebb() {
-    let (raw, _) = raw_any(N);
-    let n = N;
-    let b = byron::EbBlock {
-        header: KeepRaw::verif_from_parts(&raw[..n], ebb_head(0)),
-        body: MaybeIndefArray::Def(Vec::new()),
-        extra: MaybeIndefArray::Def(Vec::new()),
-    };
-    let mb = MultiEraBlock::EpochBoundary(Box::new(b));
-    let h = mb.hash();
-    let exp = expect256(&[0x82, 0x00], &raw[..n]);
-    assert!(eq(&h, &exp), "EBB hash is Blake2b-256(82 00 || kept header bytes)");
-    kani::cover!(n == N && two_digests(), "longest raw");
-    core::mem::forget(mb);
-}
-}
-
 // ---- datum option
 
 hash_stubs! {
@@ -373,24 +352,6 @@ fn c05_q_datum_option_hash() {
     let exp: Hash<32> = Hash::new(hb);
     assert!(eq(&h, &exp), "datum hash option is returned as is");
     kani::cover!(hb[31] == 7, "reached");
-    core::mem::forget(d);
-}
-}
-
-hash_stubs! {
-/// Inline datum: the datum hash the ledger uses is Blake2b-256 of the datum's wire bytes.
-/// `DatumOption::compute_hash` reaches `PlutusData::compute_hash` through two Derefs
-/// (CborWrap -> KeepRaw -> PlutusData) and hashes a re-encoding of the inner value.
-/// bound: datum raw = exactly 3 arbitrary bytes, inner = empty bounded bytes (re-encodes to `40`); unwind 34
-fn c05_q_datum_option_inline() {
-    let (raw, _) = raw_any(3);
-    let n = 3;
-    let k = KeepRaw::verif_from_parts(&raw[..n], alonzo::PlutusData::BoundedBytes(Vec::new().into()));
-    let d = babbage::DatumOption::Data(CborWrap(k));
-    let h = d.compute_hash();
-    let exp = expect256(&[], &raw[..n]);
-    kani::cover!(n == 3, "reached");
-    assert!(eq(&h, &exp), "inline datum hash is Blake2b-256(kept datum bytes)");
     core::mem::forget(d);
 }
 }
